@@ -13,7 +13,7 @@ R-C10-4  format constants (magic, versions, section counts/ids, field size, litt
 import ast
 import re
 
-from ..loader import norm, AnalysisError
+from ..loader import norm, AnalysisError, clone
 from ..poly import P, poly_of
 from .c13 import int_literal
 
@@ -35,8 +35,10 @@ class Ev:
 
 
 class Interp:
-    def __init__(self, fi, consts):
+    def __init__(self, fi, consts, module=None):
         self.fi = fi
+        self.module = module          # for calls of module-level helper functions (interpreted in place)
+        self.active = []
         self.consts = consts          # module-level integer names (snarkjsp)
         self.writers = {}             # name -> (fileexpr, valparam, lenparam, little_endian_ok)
         self.helpers = {}             # name -> FunctionDef of helper that calls writers (writefac)
@@ -66,8 +68,8 @@ class Interp:
         return P.sym("sum(%s)" % ",".join(norm(a) for a in args))
 
     # ---- discovery of writer helpers
-    def scan_defs(self):
-        for s in self.fi.node.body:
+    def scan_defs(self, fnode=None):
+        for s in (fnode or self.fi.node).body:
             if isinstance(s, ast.FunctionDef):
                 w = self._as_writer(s)
                 if w:
@@ -124,6 +126,9 @@ class Interp:
             self.files[s.targets[0].id] = s.value.args[0].value
             self.streams.setdefault(s.value.args[0].value, [])
             return
+        if isinstance(s, ast.Assign) and isinstance(s.targets[0], ast.Name) and isinstance(s.value, ast.Call) \
+                and self._writer_factory(s.targets[0].id, s.value):
+            return
         if isinstance(s, ast.Assign) and isinstance(s.targets[0], ast.Name):
             p = self.poly(s.value)
             if p is not None:
@@ -132,15 +137,22 @@ class Interp:
         if isinstance(s, ast.Expr) and isinstance(s.value, ast.Call):
             self.call(s.value, sink, subst or {})
             return
-        if isinstance(s, ast.For) and isinstance(s.iter, ast.Call) and norm(s.iter.func) == "range" and len(s.iter.args) == 1 \
-                and isinstance(s.iter.args[0], ast.Constant) and isinstance(s.iter.args[0].value, int) \
-                and 0 <= s.iter.args[0].value <= 8 and isinstance(s.target, ast.Name):
-            # a loop over a small literal range is unrolled (e.g. `for j in range(3): ... c[j].lc ...`)
+        unroll = None
+        if isinstance(s, ast.For) and isinstance(s.target, ast.Name):
+            if isinstance(s.iter, ast.Call) and norm(s.iter.func) == "range" and len(s.iter.args) == 1 \
+                    and isinstance(s.iter.args[0], ast.Constant) and isinstance(s.iter.args[0].value, int) \
+                    and 0 <= s.iter.args[0].value <= 8:
+                unroll = list(range(s.iter.args[0].value))
+            elif isinstance(s.iter, (ast.Tuple, ast.List)) and len(s.iter.elts) <= 8 and all(
+                    isinstance(e, ast.Constant) and isinstance(e.value, int) for e in s.iter.elts):
+                unroll = [e.value for e in s.iter.elts]
+        if unroll is not None:
+            # a loop over a small literal range / tuple is unrolled (e.g. `for j in range(3): ... c[j].lc ...`)
             import copy
-            for jv in range(s.iter.args[0].value):
+            for jv in unroll:
                 alias = {s.target.id: ast.Constant(value=jv)}
                 for b in s.body:
-                    b2 = _SubstNames(alias).visit(copy.deepcopy(b))
+                    b2 = _SubstNames(alias).visit(clone(b))
                     ast.fix_missing_locations(b2)
                     if isinstance(b2, ast.Assign) and len(b2.targets) == 1 and isinstance(b2.targets[0], ast.Name) \
                             and self.poly(b2.value) is not None and not isinstance(b2.value, ast.Constant) \
@@ -224,7 +236,43 @@ class Interp:
             return
         if f == "print":
             return
+        mf = self.module.functions.get(f) if (self.module is not None and isinstance(c.func, ast.Name)) else None
+        if mf is not None and isinstance(mf.node, ast.FunctionDef) and f not in self.active and not c.keywords \
+                and len(c.args) == len(mf.node.args.args):
+            # a module-level helper of the serializer (e.g. _write_witness()): interpreted in place
+            self.active.append(f)
+            self.scan_defs(mf.node)
+            sub = dict(zip([a.arg for a in mf.node.args.args], c.args))
+            for b in mf.node.body:
+                if sub:
+                    self._helper_stmt(b, sink, sub)
+                else:
+                    self.stmt(b, sink)
+            self.active.pop()
+            return
         self.problems.append((c, "call not interpretable: %s" % norm(c)[:60]))
+
+    def _writer_factory(self, target, call):
+        """w = make_writer(fileobj): a module-level function that defines a little-endian writer over its parameter and
+        returns it.  Registers `target` as a writer to that file."""
+        if self.module is None or not isinstance(call.func, ast.Name) or call.keywords:
+            return False
+        mf = self.module.functions.get(call.func.id)
+        if mf is None or not isinstance(mf.node, ast.FunctionDef):
+            return False
+        body = [b for b in mf.node.body if not (isinstance(b, ast.Expr) and isinstance(b.value, ast.Constant))]
+        if len(body) != 2 or not isinstance(body[0], ast.FunctionDef) or not isinstance(body[1], ast.Return) \
+                or norm(body[1].value) != body[0].name:
+            return False
+        w = self._as_writer(body[0])
+        params = [a.arg for a in mf.node.args.args]
+        if w is None or len(params) != len(call.args):
+            return False
+        fvar, vp, lp, le, fn = w
+        if fvar in params:
+            fvar = norm(call.args[params.index(fvar)])
+        self.writers[target] = (fvar, vp, lp, le, fn)
+        return True
 
     def _helper_stmt(self, s, sink, sub):
         """Inline a helper such as writefac(k, v): substitute actual argument nodes for parameters."""
@@ -234,7 +282,7 @@ class Interp:
                     return sub[n.id]
                 return n
         import copy
-        s2 = Sub().visit(copy.deepcopy(s))
+        s2 = Sub().visit(clone(s))
         ast.fix_missing_locations(s2)
         self.stmt(s2, sink)
 
@@ -246,7 +294,7 @@ class _SubstNames(ast.NodeTransformer):
     def visit_Name(self, n):
         if isinstance(n.ctx, ast.Load) and n.id in self.mapping:
             import copy
-            return copy.deepcopy(self.mapping[n.id])
+            return clone(self.mapping[n.id])
         return n
 
 
@@ -305,7 +353,7 @@ def check(repo, rep, tier):
         raise AnalysisError("snarkjs modulus constant not found")
     p = consts[modname]
     fs = (p.bit_length() + 7) // 8
-    it = Interp(fi, consts)
+    it = Interp(fi, consts, m)
     it.run()
     if "witness.wtns" not in it.streams or "circuit.r1cs" not in it.streams:
         raise AnalysisError("prove() does not write witness.wtns and circuit.r1cs (files: %s)" % sorted(it.streams))
